@@ -370,6 +370,11 @@ class ALProxy:
         g['al.%s.version' % k] = g.get('al.%s.version' % k, 0) + 1 + g.get('al.havoc', 0) * 1000
         g.setdefault('al.%s.writes' % k, []).append(v)
 
+    @property
+    def constraintKappa(self):
+        """the penalties the objective was constructed with (never updated): at most the current ones"""
+        return PW(tm.var('kappa_at_construction_i'), self._lam0.n)
+
     def _ver(self):
         g = self._g()
         return (g.get('al.lam.version', 0), g.get('al.kappa.version', 0), id(self.lam.t), id(self.kappa.t))
@@ -446,7 +451,7 @@ def _sub_step(S):
         o['returned_complementarity_error_is_abs_ncp_at_the_new_point_and_multipliers'] = tm.eq(ncpError.t, tm.abs_(al.ncp(x).t))
         o['sub_solver_flag_passed_through'] = tm.eq(tm.lift(success), ok)
         return o
-    pre = [st.penalty_scaling >= 1, kap0.t > 0, st.tol > 0]
+    pre = [st.penalty_scaling >= 1, kap0.t > 0, st.tol > 0, tm.var('kappa_at_construction_i') > 0, tm.var('kappa_at_construction_i') <= kap0.t]
     P.run_contract(S, q, run, pre, post, file=info['file'], max_paths=200, gram=False)
     S.canary(q, pre)
 
